@@ -62,6 +62,52 @@ def run(ctx):
                     what = n.ast if n.ast is not None else g.cond
                     ctx.viol("S2", f, what, "`%s` is executed only when filter_(node) is %s: filter_ must hide the node itself only — "
                              "its descendants are still visited" % (" ".join(norm(what).split())[:80], g.outcome))
+    # ---- S6 completeness: inside a per-node loop no shortcut skips the filter_ decision or the descent
+    for f in fl.strategy_funcs():
+        cfg = typer.cfg_of(f)
+        for li in cfg.nodes:
+            if li.kind != "loopin" or not isinstance(li.ast.target, ast.Name):
+                continue
+            x = li.ast.target.id
+            it_ = li.ast.iter
+            if isinstance(it_, ast.Call) and (norm(it_.func).split(".")[-1] in ("_iter", "__next") or norm(it_.func).endswith("Iter")):
+                continue  # elements of a recursive / forwarded strategy call are restricted there
+            body_nodes = [n for n in cfg.nodes if n.id in cfg.reach_from(li, labels_excluded=("exc",)) and cfg.dominates(li, n)]
+            heads = [n for n in cfg.nodes if n.kind == "fornext" and n.ast is li.ast]
+            if not heads:
+                continue
+            head = heads[0]
+
+            def is_call_on_x(e, names):
+                return isinstance(e, ast.Call) and len(e.args) == 1 and isinstance(e.args[0], ast.Name) and e.args[0].id == x and \
+                    ((isinstance(e.func, ast.Name) and e.func.id in names) or (isinstance(e.func, ast.Attribute) and e.func.attr in names))
+            stop_true = [n for n in body_nodes if n.kind == "guard" and n.outcome is True and is_call_on_x(n.cond, ("stop",))]
+            abort_true = [n for n in body_nodes if n.kind == "guard" and n.outcome is True and isinstance(n.cond, ast.Call)
+                          and norm(n.cond.func).endswith("_abort_at_level")]
+            filter_tests = [n for n in body_nodes if n.kind == "test" and is_call_on_x(n.cond, ("filter_",))]
+            yields_x = [n for n in body_nodes if n.kind == "stmt" and isinstance(n.ast, ast.Expr) and isinstance(n.ast.value, ast.Yield)
+                        and isinstance(n.ast.value.value, ast.Name) and n.ast.value.value.id == x]
+            descents = [n for n in body_nodes if n.kind in ("stmt", "foriter", "test", "return") and any(
+                isinstance(a, ast.Attribute) and a.attr == "children" and isinstance(a.value, ast.Name) and a.value.id == x
+                for a in ast.walk(n.ast.iter if n.kind == "foriter" else (n.cond if n.kind == "test" else n.ast)))]
+            if yields_x:
+                reach = cfg.reach_from(li, avoid=filter_tests + stop_true, labels_excluded=("exc",))
+                if head.id in reach or cfg.exit.id in reach:
+                    ctx.viol("S6", f, li.ast.target, "some path through the per-node loop reaches the next node without deciding filter_(%s): "
+                             "an admitted node can be skipped without filter_ hiding it" % x, construct="%s: loop over %s skips filter_" % (f.qual, norm(li.ast.iter)))
+                else:
+                    ctx.inst("S6", f, li.ast.target, "every admitted %s reaches its filter_ decision" % x)
+            if descents:
+                dom_abort = any(g.kind == "guard" and g.outcome is True and isinstance(g.cond, ast.Call) and norm(g.cond.func).endswith("_abort_at_level")
+                                for _, _, g in cfg.guards_of(li))
+                if not dom_abort:
+                    reach = cfg.reach_from(li, avoid=descents + stop_true + abort_true, labels_excluded=("exc",))
+                    if head.id in reach or cfg.exit.id in reach:
+                        ctx.viol("S6", f, li.ast.target, "some path through the per-node loop reaches the next node without descending into "
+                                 "%s.children although neither stop nor the depth limit applies: part of the admitted subtree is skipped" % x,
+                                 construct="%s: loop over %s skips descent" % (f.qual, norm(li.ast.iter)))
+                    else:
+                        ctx.inst("S6", f, li.ast.target, "every admitted %s is descended into unless stop/maxlevel applies" % x)
     # ---- S5: group yields depend only on non-emptiness of the admitted sequence / depth guard
     for cname in ("LevelOrderGroupIter",):
         f = p.func(cname, "_iter")
@@ -134,3 +180,4 @@ def run(ctx):
     ctx.floor("S3", 10)
     ctx.floor("S4", 14)
     ctx.floor("S5", 1)
+    ctx.floor("S6", 6)
